@@ -32,6 +32,8 @@ type Engine struct {
 	SpecDefs  []string
 	RG        map[string]*RGSpec
 	exempt    map[string]bool
+	addrTaken map[*ssa.Function]bool
+	fvCache   map[string][]*ssa.Function
 	Exempted  []string
 	ContractFiles []string
 
@@ -335,7 +337,13 @@ func (e *Engine) computeModSets() {
 					case *ssa.MakeClosure:
 						callees[fn] = append(callees[fn], cv.Fn.(*ssa.Function))
 					default:
-						m.All = true
+						// call through a function value: every function of the program that is ever used as a value
+						// and has this signature (closed world over the loaded program)
+						if tg := e.funcValueTargets(c.Value.Type()); tg != nil {
+							callees[fn] = append(callees[fn], tg...)
+						} else {
+							m.All = true
+						}
 					}
 				}
 			}
@@ -372,6 +380,66 @@ func (e *Engine) computeModSets() {
 			}
 		}
 	}
+}
+
+// funcValueTargets: functions and closures that escape as values and whose signature is identical to t
+func (e *Engine) funcValueTargets(t types.Type) []*ssa.Function {
+	sig, ok := underlying(t).(*types.Signature)
+	if !ok {
+		return nil
+	}
+	if e.addrTaken == nil {
+		e.addrTaken = map[*ssa.Function]bool{}
+		for _, fn := range e.allFns {
+			if fn.Blocks == nil {
+				continue
+			}
+			for _, b := range fn.Blocks {
+				for _, ins := range b.Instrs {
+					if _, dbg := ins.(*ssa.DebugRef); dbg {
+						continue
+					}
+					var callee ssa.Value
+					if c, ok := ins.(ssa.CallInstruction); ok {
+						callee = c.Common().Value
+					}
+					for _, op := range ins.Operands(nil) {
+						switch v := (*op).(type) {
+						case *ssa.Function:
+							if v != callee {
+								e.addrTaken[v] = true
+							}
+						case *ssa.MakeClosure:
+							if ssa.Value(v) != callee {
+								e.addrTaken[v.Fn.(*ssa.Function)] = true
+							}
+						}
+					}
+				}
+			}
+		}
+	}
+	key := typeKey(sig)
+	if r, ok := e.fvCache[key]; ok {
+		return r
+	}
+	if e.fvCache == nil {
+		e.fvCache = map[string][]*ssa.Function{}
+	}
+	var out []*ssa.Function
+	for f := range e.addrTaken {
+		fs := f.Signature
+		// a closure's signature has no receiver; method values are not followed
+		if fs.Recv() == nil && types.Identical(types.NewSignatureType(nil, nil, nil, fs.Params(), fs.Results(), fs.Variadic()), types.NewSignatureType(nil, nil, nil, sig.Params(), sig.Results(), sig.Variadic())) {
+			out = append(out, f)
+		}
+	}
+	sort.Slice(out, func(i, j int) bool { return fnKey(out[i]) < fnKey(out[j]) })
+	if len(out) == 0 || len(out) > 200 {
+		out = nil
+	}
+	e.fvCache[key] = out
+	return out
 }
 
 // invokeTargets: class-hierarchy resolution of an interface method call on an interface type declared in the repo
